@@ -131,8 +131,9 @@ func makeDynsamplerKey(prefix, samplerType string, rate int64, fieldList []strin
 			}
 		}
 	}
-	// %q keeps field names that contain spaces apart from separate fields
-	return fmt.Sprintf("%s:%s:%d:%q:%s", prefix, samplerType, rate, sorted, tuning)
+	// %q keeps field names that contain spaces apart from separate fields, and
+	// a prefix that contains colons apart from the rest of the key
+	return fmt.Sprintf("%q:%s:%d:%q:%s", prefix, samplerType, rate, sorted, tuning)
 }
 
 // createSampler creates a sampler with shared dynsamplers based on the config type.
@@ -215,7 +216,9 @@ func (s *SamplerFactory) createSampler(c any, keyPrefix string) Sampler {
 func (s *SamplerFactory) GetSamplerImplementationForKey(samplerKey string) Sampler {
 	c, _ := s.Config.GetSamplerConfigForDestName(samplerKey)
 
-	return s.createSampler(c, samplerKey)
+	// the "dest:" namespace keeps a destination that is literally named
+	// "rules:<X>:" apart from the downstream samplers of destination <X>
+	return s.createSampler(c, "dest:"+samplerKey)
 }
 
 // GetDownstreamSampler creates a downstream sampler for use in rules-based sampling,
